@@ -2,7 +2,7 @@
 comparison over whole sessions, sizes/ids versus files are not decided)."""
 from qv.core import AnalysisBroken
 from qv.esp import Engine, Outcome, TOP, fs
-from qv.lib import QHooks
+from qv.lib import QHooks, branch_zero_test
 
 DOT = ord('.')
 
@@ -244,8 +244,8 @@ def run(ctx):
     r4 = rep.rule('C19.4-start-up', 'R-ORDER', 'main: refuses uid 0, then chdir to the maildir, then getlist (m[] filled once from the priority queue), then the command loop')
     mf = prog.fn('main', u)
     dr, cd, gl, cm = mf.calls('die_root'), mf.calls('chdir'), mf.calls('getlist'), mf.calls('commands')
-    ok = bool(dr and cd and gl and cm) and any(c.strip().k == 'un' and c.strip().op == '!' and c.strip().args[0].strip().callee == 'getuid' and t is True for c, t in mf.guards(dr[0]) or []) and \
-        mf.dominates(cd[0], gl[0]) and mf.dominates(gl[0], cm[0]) and any(c.strip().k == 'un' and c.strip().args[0].strip().callee == 'getuid' and t is False for c, t in mf.guards(cd[0]) or [])
+    ok = bool(dr and cd and gl and cm) and any(branch_zero_test(c, t, lambda v: v.strip().k == 'call' and v.strip().callee == 'getuid') == 'zero' for c, t in mf.guards(dr[0]) or []) and \
+        mf.dominates(cd[0], gl[0]) and mf.dominates(gl[0], cm[0]) and any(branch_zero_test(c, t, lambda v: v.strip().k == 'call' and v.strip().callee == 'getuid') == 'nonzero' for c, t in mf.guards(cd[0]) or [])
     r4.check(ok, 'root-refused<chdir<getlist<commands', u + ':main', '')
     fills = [fn.name for fn in prog.functions() if fn.unit == u for x in fn.all_x() if x.k == 'asg' and x.args[0].src().endswith('.fn') and x.args[0].src().startswith('m[')]
     r4.check(fills == ['getlist'], 'message-table-filled-only-by-getlist', u, 'm[i].fn assigned in %s' % fills)
@@ -263,7 +263,7 @@ def run(ctx):
     r5.check(set(cmds) == {'user', 'pass', 'apop', 'quit', 'noop', '<other>'} and cmds.get('<other>') == 'err_authoriz', 'pre-authentication-command-table', 'qmail-popup.c', 'table %s' % cmds)
     pp = db.fn('qmail-popup.c', 'pop3_pass')
     dd = pp.calls('doanddie')
-    r5.check(bool(dd) and any(c.strip().k == 'un' and c.strip().op == '!' and c.strip().args[0].path() == 'G:seenuser' and t is False for c, t in pp.guards(dd[0]) or []) and
+    r5.check(bool(dd) and any(branch_zero_test(c, t, lambda v: v.path() == 'G:seenuser') == 'nonzero' for c, t in pp.guards(dd[0]) or []) and
              dd[0].args[0].path() == 'G:username.s', 'PASS-needs-USER', 'qmail-popup.c:pop3_pass', '')
     da = db.fn('qmail-popup.c', 'doanddie')
     seq = []
